@@ -31,6 +31,10 @@ class Unsupported(Exception):
     pass
 
 
+# answers of numba.get_num_threads() / get_thread_id() inside rewritten kernels
+VIRTUAL = {"get_num_threads": 1, "get_thread_id": 0}
+
+
 # ------------------------------------------------------------------ source rewriting
 
 
@@ -126,6 +130,10 @@ def rewrite(kernel):
     ast.fix_missing_locations(tree)
     ns = dict(py.__globals__)
     ns["prange"] = range
+    # numba's thread queries are answered by the virtual scheduler
+    for fname in ("get_num_threads", "get_thread_id"):
+        if fname in ns:
+            ns[fname] = (lambda f: (lambda: VIRTUAL[f]))(fname)
     exec(compile(tree, f"<rewritten {py.__name__}>", "exec"), ns)
     info = {"parallel": parallel, "regions": regions, "name": py.__name__, "args": argnames}
     return ns["__kernel"], info
@@ -218,6 +226,7 @@ class Scheduler:
     # -- the loop
     def parallel_for(self, body, region, *range_args):
         iters = list(range(*[int(a) for a in range_args]))
+        self.iterations = iters
         if self.mode == "seq" or not self.parallel:
             for i in iters:
                 self.cur_iter = i
@@ -238,6 +247,7 @@ class Scheduler:
             try:
                 self._yield(tid)  # block before the first step
                 for i in part[tid]:
+                    VIRTUAL["get_thread_id"] = tid  # only one virtual thread runs at a time
                     body(i)
             except BaseException as e:  # noqa: B902
                 import traceback
@@ -286,9 +296,14 @@ class Scheduler:
 # ------------------------------------------------------------------ exploration
 
 
-def run_sequential(fn, info, args):
+def run_sequential(fn, info, args, nthreads=1):
+    """One thread executes every iteration in order; numba.get_num_threads() answers `nthreads`."""
     s = Scheduler("seq", parallel=info["parallel"])
-    res = fn(s, *[np.array(a, copy=True) if isinstance(a, np.ndarray) else a for a in args])
+    VIRTUAL["get_num_threads"], VIRTUAL["get_thread_id"] = nthreads, 0
+    try:
+        res = fn(s, *[np.array(a, copy=True) if isinstance(a, np.ndarray) else a for a in args])
+    finally:
+        VIRTUAL["get_num_threads"] = 1
     return res, s
 
 
@@ -312,9 +327,13 @@ def conflicts(s):
     return out
 
 
-def run_threads(fn, info, args, partition, prefix):
+def run_threads(fn, info, args, partition, prefix, nthreads=None):
     s = Scheduler("threads", partition=partition, prefix=prefix, parallel=info["parallel"])
-    res = fn(s, *[np.array(a, copy=True) if isinstance(a, np.ndarray) else a for a in args])
+    VIRTUAL["get_num_threads"], VIRTUAL["get_thread_id"] = (nthreads or max(1, len(partition))), 0
+    try:
+        res = fn(s, *[np.array(a, copy=True) if isinstance(a, np.ndarray) else a for a in args])
+    finally:
+        VIRTUAL["get_num_threads"] = 1
     return res, s
 
 
@@ -356,14 +375,14 @@ def children_of(trace, start, bound):
     return out
 
 
-def explore_subtree(fn, info, args, partition, prefix, bound, check, limit=None, root_only_if=False):
+def explore_subtree(fn, info, args, partition, prefix, bound, check, limit=None, root_only_if=False, nthreads=None):
     """DFS below `prefix` (the execution of `prefix` itself included). check(result) -> None | detail.
     Returns dict(executions, failures: list of (schedule, detail), max_choices)."""
     stack = [list(prefix)]
     n, fails, maxc, outcomes = 0, [], 0, set()
     while stack:
         p = stack.pop()
-        res, s = run_threads(fn, info, args, partition, p)
+        res, s = run_threads(fn, info, args, partition, p, nthreads=nthreads)
         n += 1
         maxc = max(maxc, len(s.trace))
         d = check(res)
